@@ -103,11 +103,11 @@ class World:
         if isinstance(err, Concurrent):
             return ['conc', [self.enc(c) for c in err.children]]
         if isinstance(err, TaskCancelled):
-            return ['tcancelled', self.task_id.get(id(err.subject), 0)]
+            return ['tcancelled', self.task_id.get(id(getattr(err, 'subject', None)), 0)]
         if isinstance(err, TaskClosed):
             return ['tclosed', ctx_task]
         if isinstance(err, StreamClosed):
-            return ['streamclosed'] + list(self.stream_id.get(id(err.stream), ('?', 0)))
+            return ['streamclosed'] + list(self.stream_id.get(id(getattr(err, 'stream', None)), ('?', 0)))
         if isinstance(err, IntervalExceeded):
             return ['exceeded']
         if isinstance(err, ResourcesUnavailable):
@@ -115,19 +115,23 @@ class World:
         if isinstance(err, StopAsyncIteration):
             return ['stopiter']
         if isinstance(err, ScopeClosed):
-            return ['scopeclosed', self.scope_id.get(id(err.scope), 0)]
+            return ['scopeclosed', self.scope_id.get(id(getattr(err, 'scope', None)), 0)]
         if isinstance(err, GeneratorExit):
             return ['genexit']
         if isinstance(err, CancelTask):
-            k = self.task_id.get(id(err.subject), 0)
+            k = self.task_id.get(id(getattr(err, 'subject', None)), 0)
             try:
                 n = err.subject._cancellations.index(err) + 1
-            except ValueError:
+            except (ValueError, AttributeError):     # (internals restructured: the ordinal is informational only)
                 n = 0
             return ['ct', k, n]
         if isinstance(err, CancelScope):
-            s = self.scope_id.get(id(err.subject), 0)
-            return ['cs' if err is err.subject._cancel_self else 'ci', s]
+            scope = getattr(err, 'subject', None)
+            s = self.scope_id.get(id(scope), 0)
+            own = getattr(scope, '_cancel_self', None)
+            if own is None:     # (internals restructured) an until-block's trigger is its `_interrupt`
+                return ['ci' if err is getattr(scope, '_interrupt', None) else 'cs', s]
+            return ['cs' if err is own else 'ci', s]
         if isinstance(err, Interrupt):
             return ['wk', 0, 0]
         return ['other', type(err).__name__, str(err)[:80]]
